@@ -43,8 +43,24 @@ struct Case {
     call_order: u8,
 }
 
+/// Node names. Nodes 4k and 4k+1 are twins whose names differ only in the case of the last
+/// letter (`N4x` / `N4X`): distinct types to a case-sensitive language, one key to anything that
+/// folds case.
 fn name(i: usize) -> String {
-    format!("N{}", i)
+    if i % 4 == 1 {
+        format!("N{}X", i - 1)
+    } else {
+        format!("N{}x", i)
+    }
+}
+
+fn parse_name(s: &str) -> usize {
+    let k: usize = s[1..s.len() - 1].parse().unwrap();
+    if s.ends_with('X') {
+        k + 1
+    } else {
+        k
+    }
 }
 
 fn reach_matrix(n_all: usize, edges: &[(usize, usize)]) -> Vec<Vec<bool>> {
@@ -200,7 +216,7 @@ fn run_routines(c: &Case) -> Result<(), String> {
         }
     }
     match r.resolve_build_order() {
-        Ok(order) => println!("R ok {}", order.iter().map(|n| format!("N{}", idx(n))).collect::<Vec<_>>().join(",")),
+        Ok(order) => println!("R ok {}", order.iter().map(|n| name(idx(n).parse::<usize>().unwrap())).collect::<Vec<_>>().join(",")),
         Err(DependencyError::CircularDependency(s)) => println!("R cycle {}", s),
         Err(e) => println!("R other {}", e),
     }
@@ -220,7 +236,7 @@ impl Check for C20 {
     fn cases(&self, tier: Tier) -> u64 {
         match tier {
             Tier::Quick => 4000,
-            Tier::Thorough => 100_000,
+            Tier::Thorough => 200_000,
         }
     }
     fn gen(&self, seed: u64, i: u64, tier: Tier) -> Value {
@@ -367,7 +383,7 @@ impl Check for C20 {
                             .unwrap_or("")
                             .split(',')
                             .filter(|s| !s.is_empty())
-                            .map(|s| s[1..].parse().unwrap())
+                            .map(|s| parse_name(s))
                             .collect();
                         orders.insert(line.to_string());
                         let req = &c.requested[k];
@@ -412,7 +428,7 @@ impl Check for C20 {
                         orders.insert(line.to_string());
                         match kind {
                             "ok" => {
-                                let names: Vec<usize> = rest.split(',').filter(|s| !s.is_empty()).map(|s| s[1..].parse().unwrap()).collect();
+                                let names: Vec<usize> = rest.split(',').filter(|s| !s.is_empty()).map(|s| parse_name(s)).collect();
                                 if cyclic {
                                     co.violate("C20/resolver/ok-on-cycle".into(), "a cyclic graph is reported as a circular dependency", format!("edges {:?}: Ok({:?})", c.edges, names));
                                 } else {
@@ -469,7 +485,7 @@ impl Check for C20 {
                         continue;
                     }
                     let k: usize = it.next().unwrap().parse().unwrap();
-                    let names: Vec<usize> = it.next().unwrap_or("").split(',').filter(|s| s.starts_with('N')).map(|s| s[1..].parse().unwrap()).collect();
+                    let names: Vec<usize> = it.next().unwrap_or("").split(',').filter(|s| s.starts_with('N')).map(|s| parse_name(s)).collect();
                     let req = &c.requested[k];
                     let set: BTreeSet<usize> = names.iter().copied().collect();
                     if set.len() != names.len() {
